@@ -46,6 +46,7 @@ pub struct Snap {
     pub unbonding: u64,
     pub paused: bool,
     pub keeper_rate: u128,
+    pub keeper: Id,
     pub reg_vals: Vec<Id>,
     pub disp_bank: [u128; 3],
     pub pending_total: [u128; 3],
@@ -95,6 +96,7 @@ pub fn snap(c: &Chain) -> Snap {
     }
     if let Ok(d) = c.q::<basset::dispatcher::ConfigResponse, _>(DISP, &basset_sei_rewards_dispatcher::msg::QueryMsg::Config {}) {
         s.keeper_rate = d.krp_keeper_rate.atomics().u128();
+        s.keeper = id_of(&d.krp_keeper_address);
     }
     s.reg_vals = c.reg_validators().iter().map(|x| x.0).collect();
     for d in 0..3u8 {
@@ -1028,7 +1030,8 @@ pub fn check_step(cx: &StepCtx) -> Vec<Violation> {
     }
 
     // ---------------------------------------------------------------- C19 / C17: index update delivers everything
-    if kind == "hub.ugi" && ok {
+    // (E3: judged only while the trusted configuration of the genesis is still in force)
+    if kind == "hub.ugi" && ok && cx.envelope {
         if let Op::Tx { sender, .. } = op {
             let _ = sender;
             let left: u128 = VALS.iter().map(|x| if cx.chain_pre.deleg.contains_key(x) { (0..3u8).map(|d| cx.chain_post.pending_of(*x, d)).sum::<u128>() } else { 0 }).sum();
@@ -1056,7 +1059,7 @@ pub fn check_step(cx: &StepCtx) -> Vec<Violation> {
                 }
             }
             // keeper gets floor(balance × rate) of each coin; everything else is forwarded
-            let to_keeper: [u128; 2] = [0u8, 1u8].map(|d| cx.effects.iter().map(|e| match e { Effect::Bank { from, to, denom, amt } if *from == DISP && *to == KEEPER && *denom == d => *amt, _ => 0 }).sum());
+            let to_keeper: [u128; 2] = [0u8, 1u8].map(|d| cx.effects.iter().map(|e| match e { Effect::Bank { from, to, denom, amt } if *from == DISP && *to == pre.keeper && *denom == d => *amt, _ => 0 }).sum());
             let to_reward: u128 = cx.effects.iter().map(|e| match e { Effect::Bank { from, to, denom: 1, amt } if *from == DISP && *to == REWARD => *amt, _ => 0 }).sum();
             let held_st = to_keeper[0] + rebonded;
             let held_b = to_keeper[1] + to_reward;
@@ -1090,6 +1093,27 @@ pub fn check_step(cx: &StepCtx) -> Vec<Violation> {
                 let site = if pre.keeper_rate == 0 { "keeper-rate-zero" } else if pre.keeper_rate == D { "keeper-rate-one" } else { "dust-balance" };
                 out.push(v("C17", &format!("zero-transfer:{}", site), format!("{}: dispatch failed (keeper rate {}); zero-amount bank send", kind, pre.keeper_rate)));
                 out.push(v("C19", &format!("zero-transfer:{}", site), format!("{}: index update failed with stake bonded (keeper rate {})", kind, pre.keeper_rate)));
+            }
+        }
+    }
+
+    // ---------------------------------------------------------------- C13: the follow-up redelegation of stranded stake
+    if kind == "reg.redelegations" && ok {
+        if let Op::Tx { call: Call::Reg(RegMsg::Redelegations(val)), .. } = op {
+            let could = !cx.chain_pre.no_redelegate.contains(val);
+            if could && *post.deleg.get(val).unwrap_or(&0) != 0 {
+                out.push(v("C13", "stake-left-on-removed", format!("{} keeps {} after Redelegations", val, post.deleg.get(val).unwrap())));
+            }
+            let rebonded: u128 = cx.effects.iter().map(|e| match e { Effect::Delegate { amt, .. } => *amt, _ => 0 }).sum();
+            if post.delegated != pre.delegated + rebonded {
+                out.push(v("C13", "delegated-total-changed", format!("delegated {} → {} with {} re-bonded", pre.delegated, post.delegated, rebonded)));
+            }
+            for e in cx.effects.iter() {
+                match e {
+                    Effect::Redelegate { dst, .. } if !post.reg_vals.contains(dst) => out.push(v("C13", "redelegated-to-unregistered", format!("redelegated to {}", dst))),
+                    Effect::Delegate { v: dst, .. } if !post.reg_vals.contains(dst) => out.push(v("C13", "delegate-to-unregistered", format!("re-bonded rewards delegated to {}", dst))),
+                    _ => {}
+                }
             }
         }
     }
